@@ -226,8 +226,15 @@ After(L) == [sizes |-> L.sizes, charges |-> L.charges, qconj |-> L.qconj,
              is_sorted |-> IsSortedCh(L.charges), is_bunched |-> IsBunchedCh(L.charges)]
 Log == hist' = Append(hist, [l |-> last', a |-> After(leg')]) /\ obs' = LegObs(mods', leg')
 
+\* ChargeInfo(mod): make_valid / check_valid observed on the probe vectors {-4..4}^qnumber
+ProbeVec(q, i) == [k \in 1..q |-> ((i \div 9^(k - 1)) % 9) - 4]
+Probes(M) == [i \in 1..9^Len(M) |-> ProbeVec(Len(M), i - 1)]
 CStart == /\ phase = "start"
-          /\ \E M \in ModsSet : mods' = M /\ last' = [op |-> "chinfo", mod |-> M]
+          /\ \E M \in ModsSet :
+               /\ mods' = M
+               /\ last' = [op |-> "chinfo", mod |-> M, probes |-> Probes(M),
+                           make_valid |-> [i \in 1..9^Len(M) |-> MakeValid(M, Probes(M)[i])],
+                           check_valid |-> [i \in 1..9^Len(M) |-> CheckValid(M, Probes(M)[i])]]
           /\ phase' = "new"
           /\ UNCHANGED <<leg, ref, nops>> /\ Log
 
@@ -321,6 +328,18 @@ CSpec == CInit /\ [][CNext]_cvars
 (* Properties (C06, second sentence) *)
 
 InLeg == phase \in {"leg", "done"}
+
+\* make_valid: a valid representative of the same class, idempotent, compatible with negation and addition
+ChargeInfoLaws ==
+    last.op = "chinfo" =>
+        \A i \in 1..Len(last.probes) :
+            LET v == last.probes[i]  w == last.make_valid[i]
+            IN /\ CheckValid(mods, w) /\ MakeValid(mods, w) = w
+               /\ last.check_valid[i] = (w = v)
+               /\ \A k \in 1..Len(mods) : (w[k] - v[k]) % mods[k] = 0
+               /\ MakeValid(mods, VNeg(MakeValid(mods, VNeg(v)))) = w
+               /\ \A j \in 1..Len(last.probes) :
+                     MakeValid(mods, VAdd(w, last.make_valid[j])) = MakeValid(mods, VAdd(v, last.probes[j]))
 
 \* the charge attached to every surviving index is preserved (qconj taken into account)
 ChargePreserved == InLeg => EffFlat(mods, leg) = ref
